@@ -7,7 +7,7 @@ from vf.core import Shard, rng_for
 
 PROPERTY = 'C17'
 RULE = ('random CMAP files: 0-8 molecules, ids up to 10^7, 0-60 labels per molecule (unlabelled molecules included), '
-        'one-decimal coordinates up to 10^7, rows shuffled on 60 % of files, extra and permuted columns (header-driven), '
+        'one-decimal coordinates up to 10^7, rows shuffled on 60 % of files, extra and permuted columns (header-driven), equivalent spellings (CRLF, comment and blank lines between rows, extra header comments, no trailing newline), '
         'id filters with unknown ids; read with the real CmapReader.readQueries/readReferences (one reader object reads all files of a shard, as Program reads reference and query with one reader) and compared with the '
         'generator\'s dictionary model (one map per id with >= 1 label, ascending labels, length = int(end marker), '
         'molecules in ascending id, filter = exactly the listed ids); OpticalMap.trim(): first label 0, same count, '
@@ -38,10 +38,13 @@ def make_file(rng):
     shuffle = rng.random() < 0.6
     txt = text.cmap_text([tuple(m) for m in mols], rng=rng, shuffle_rows=shuffle, extra_cols=rng.random() < 0.5,
                          permute_cols=rng.random() < 0.3)
+    variant = None
+    if rng.random() < 0.3:
+        txt, variant = text.vary_syntax(txt, rng)
     flt = None
     if rng.random() < 0.5 and ids:
         flt = rng.sample(ids, rng.randint(1, len(ids))) + ([999999999] if rng.random() < 0.3 else [])
-    return {'kind': 'file', 'mols': mols, 'text': txt, 'filter': flt, 'shuffled': shuffle,
+    return {'kind': 'file', 'mols': mols, 'text': txt, 'filter': flt, 'shuffled': shuffle, 'variant': variant,
             'which': rng.choice(['readQueries', 'readReferences'])}
 
 
@@ -56,7 +59,9 @@ def judge_file(c, sh):
         sh.count('shuffled-files')
     if c['filter']:
         sh.count('filtered-reads')
-    case = {k: c[k] for k in ('kind', 'text', 'filter', 'which', 'mols', 'shuffled')}
+    if c.get('variant'):
+        sh.count('syntax-variant:' + c['variant'])
+    case = {k: c.get(k) for k in ('kind', 'text', 'filter', 'which', 'mols', 'shuffled', 'variant')}
     try:
         # one reader object per shard reads all files (Program reads the reference and the query file with one CmapReader)
         reader = READERS.setdefault('r', CmapReader()) if c.get('shared_reader', True) else CmapReader()
